@@ -134,6 +134,10 @@ func c51Check(d string) (string, bool, error) {
 	}
 	ps, icann := PublicSuffix(d)
 	etld1, err := EffectiveTLDPlusOne(d)
+	// the cookiejar.PublicSuffixList entry point is the same function
+	if lp := List.PublicSuffix(d); lp != ps {
+		return "", false, fmt.Errorf("List.PublicSuffix(%q) = %q, PublicSuffix = %q", d, lp, ps)
+	}
 
 	// "EffectiveTLDPlusOne returns that suffix plus one label or an error when none
 	// exists" - relation between the two functions, for every input.
